@@ -170,7 +170,11 @@ def runCase (s : St) : String :=
       -- * error recovery: one of the two trees contains ERROR/MISSING nodes (recovery costs count excluded bytes);
       -- a scanner that reads the column legitimately answers differently on the concatenation (columns differ):
       -- such pairs are outside the equality claim (DESIGN §7 C13 M); they are counted, not judged
-      let col := anyColumn r.root || anyColumn c.root
+      -- … unless every excluded gap between two effective ranges is free of newlines: then the included characters
+      -- before any position are the same on its line in the document and in the concatenation, `get_column`
+      -- (which counts included characters from the line start) must agree, and the pair IS judged
+      let gapNewline := (es.zip (es.drop 1)).any fun (e1, e2) => (s.doc.extract e1.b e2.a).toList.contains 10
+      let col := (anyColumn r.root || anyColumn c.root) && gapNewline
       let (shape, pos) := if col && st.fail.isSome then ("ok", "ok") else (shape, pos)
       let cause := if col && st.fail.isSome then "-"
         else if st.fail.isNone && st.quirks == 0 then "-"
@@ -178,7 +182,7 @@ def runCase (s : St) : String :=
         else if st.fail.isNone then "empty-range-boundary"
         else if errBoth then "error-recovery"
         else "other"
-      s!"{s.id} setter={setter} reported={reported} concat={concatOk} shape={shape} pos={pos} cause={cause} accepted=1 err={if err then 1 else 0} nranges={n} neff={es.length} onb={if onB then 1 else 0} effok={if effOk then 1 else 0} nodes={st.nodes} leaves={st.leaves} gapleaves={st.gapLeaves} quirks={st.quirks} col={if col then 1 else 0} fit={if fit then 1 else 0} rc={if rc then "ok" else "bad"} sc={if sc then "ok" else "bad"}"
+      s!"{s.id} setter={setter} reported={reported} concat={concatOk} shape={shape} pos={pos} cause={cause} accepted=1 err={if err then 1 else 0} nranges={n} neff={es.length} onb={if onB then 1 else 0} effok={if effOk then 1 else 0} nodes={st.nodes} leaves={st.leaves} gapleaves={st.gapLeaves} quirks={st.quirks} col={if col then 1 else 0} colsens={if anyColumn r.root || anyColumn c.root then 1 else 0} fit={if fit then 1 else 0} rc={if rc then "ok" else "bad"} sc={if sc then "ok" else "bad"}"
     | _, _ => s!"{s.id} setter={setter} reported={reported} concat={concatOk} shape=BADINPUT pos=BADINPUT cause=other accepted=1"
 
 def step (s : St) (line : String) : IO St := do
